@@ -221,10 +221,13 @@ def gen_cache_trace(seed, faults, kinds=("wb", "wt")):
 def gen_flat_trace(seed, faults):
     r = R.stream(seed, "config")
     toy = r.random() < 0.3
-    cfg = {"kind": "toy" if toy else "flat"}
+    full = (not toy) and r.random() < 0.25
+    cfg = {"kind": "toy" if toy else "flat-full" if full else "flat"}
     r = R.stream(seed, "ops")
     if toy:
         lo, hi, cw, widths = 0, 4096, 2, [2, 4, 8]  # widths in bytes; cell = 2 bytes
+    elif full:
+        lo, hi, cw, widths = 0, 2**32, 1, [1, 2, 4, 8]
     else:
         lo, hi, cw, widths = DATA_MIN, 2**32, 1, [1, 2, 4, 8]
     counter = [0]
